@@ -32,8 +32,9 @@
      defaults: `$TTL` default before previous TTL; previous class), owner absolute / relative /
      `@` / omitted (a leading blank ⇒ previous owner); all gaps of a record general (so records
      may span lines in parentheses opened anywhere, the usual `SOA ( … )` style included);
-     `$ORIGIN` and `$TTL` directive lines; blank and comment-only lines; every line ending LF or
-     CRLF;
+     `$ORIGIN`, `$TTL` and `$INCLUDE` directive lines (the latter yield the include request with
+     the path — a quoted or unquoted string — and the origin given or current); blank and
+     comment-only lines; every line ending LF or CRLF;
    * whole files of such entries: exactly the denoted records, in order, with line numbers
      (`C23_records_partial`).
   NOT PROVED (the gap; the name says `_partial`)
@@ -169,7 +170,7 @@ theorem C23_record_partial (ctx : Ctx) (hctx : CtxWF ctx) (p : PRecord) (hwf : W
     written in RFC 3597 form must be valid for its class and type, as RFC 3597 §5 asks): the
     parser yields exactly `srs`, in order, with their line numbers, and nothing else. -/
 theorem C23_records_partial (es : List PEntry) (hwf : ∀ e ∈ es, WFEntry e) (ctx : Ctx) (hctx : CtxWF ctx)
-    (srs : List SRecord) (hden : denoteFile validB es (toSCtx ctx) 1 = some srs) :
+    (srs : List SItem) (hden : denoteFile validB es (toSCtx ctx) 1 = some srs) :
     parseAll (renderFile es) ctx = srs.map itemOf :=
   collect_file es hwf ctx hctx 1 srs hden
 
@@ -199,7 +200,7 @@ private def sD : PString := ⟨false, [(100, .dec)]⟩
     `$ORIGIN t.¶` `a\.b.\010c. iN 5 TYPE1 \# 4 01020304 ;x¬` `→¬` ` →TYPE16→\#(2;h¶ 0161)¶` `$TTL 9¬`
     `w CLASS3 TYPE99 \# 0¶` `@ Ns a¶` ` mx 10 m\\\¶.\120.¶` ` SOA @ a ( 1 ;s¬ 2¶→3 4 4294967295 ) ;d¶`
     `a→( 7;¶→iN ) Srv 1 2 3 @¶` ` MINFO a m\\\¶.\120. ;¶` ` a (192.0.2.1)¬` ` (txt "a¶b\"" c\;d¬ \100)¶`
-    ` Hinfo "" \100¶` -/
+    ` Hinfo "" \100¶` `$INCLUDE "x y" a¶` `$INCLUDE→z ;¬` -/
 def exFile : List PEntry :=
   [.origin [[(116, .raw)]] [32] [] [] false,
    .record ⟨.named (.abs [[(97, .raw), (46, .esc), (98, .raw)], [(10, .dec), (99, .raw)]]), some 5,
@@ -223,24 +224,28 @@ def exFile : List PEntry :=
    .record ⟨.same, none, none, true, .mnemonic [97] 1, .a 192 0 2 1, [], [[.blank false, .openParen]], [.closeParen], [], true⟩,
    .record ⟨.same, none, none, true, .mnemonic [116, 120, 116] 16, .txt sQ [sU, sD], [[.blank false, .openParen]],
       [[.blank false], [.blank false], [.newline [] true, .blank false]], [.closeParen], [], false⟩,
-   .record ⟨.same, none, none, true, .mnemonic [72, 105, 110, 102, 111] 13, .hinfo ⟨true, []⟩ sD, [], [], [], [], false⟩]
+   .record ⟨.same, none, none, true, .mnemonic [72, 105, 110, 102, 111] 13, .hinfo ⟨true, []⟩ sD, [], [], [], [], false⟩,
+   .incl ⟨true, [(120, .raw), (32, .raw), (121, .raw)]⟩ (some nA) [32] [32] [] [] false,
+   .incl ⟨false, [(122, .raw)]⟩ none [9] [] [32] [59] true]
 
-/-- the example file is well-formed and denotes eleven records -/
+/-- the example file is well-formed and denotes eleven records and two include requests -/
 theorem exFile_ok :
     (∀ e ∈ exFile, WFEntry e) ∧
     denoteFile validB exFile (toSCtx {}) 1 =
-      some [⟨2, [3, 97, 46, 98, 2, 10, 99, 0], 5, 1, 1, [1, 2, 3, 4]⟩,
-            ⟨4, [3, 97, 46, 98, 2, 10, 99, 0], 5, 1, 16, [1, 97]⟩,
-            ⟨7, [1, 119, 1, 116, 0], 9, 3, 99, []⟩,
-            ⟨8, [1, 116, 0], 9, 3, 2, [1, 97, 1, 116, 0]⟩,
-            ⟨9, [1, 116, 0], 9, 3, 15, [0, 10, 3, 109, 92, 10, 1, 120, 0]⟩,
-            ⟨11, [1, 116, 0], 9, 3, 6, [1, 116, 0, 1, 97, 1, 116, 0, 0, 0, 0, 1, 0, 0, 0, 2, 0, 0, 0, 3,
+      some [.record ⟨2, [3, 97, 46, 98, 2, 10, 99, 0], 5, 1, 1, [1, 2, 3, 4]⟩,
+            .record ⟨4, [3, 97, 46, 98, 2, 10, 99, 0], 5, 1, 16, [1, 97]⟩,
+            .record ⟨7, [1, 119, 1, 116, 0], 9, 3, 99, []⟩,
+            .record ⟨8, [1, 116, 0], 9, 3, 2, [1, 97, 1, 116, 0]⟩,
+            .record ⟨9, [1, 116, 0], 9, 3, 15, [0, 10, 3, 109, 92, 10, 1, 120, 0]⟩,
+            .record ⟨11, [1, 116, 0], 9, 3, 6, [1, 116, 0, 1, 97, 1, 116, 0, 0, 0, 0, 1, 0, 0, 0, 2, 0, 0, 0, 3,
               0, 0, 0, 4, 255, 255, 255, 255]⟩,
-            ⟨14, [1, 97, 1, 116, 0], 7, 1, 33, [0, 1, 0, 2, 0, 3, 1, 116, 0]⟩,
-            ⟨16, [1, 97, 1, 116, 0], 9, 1, 14, [1, 97, 1, 116, 0, 3, 109, 92, 10, 1, 120, 0]⟩,
-            ⟨18, [1, 97, 1, 116, 0], 9, 1, 1, [192, 0, 2, 1]⟩,
-            ⟨19, [1, 97, 1, 116, 0], 9, 1, 16, [4, 97, 10, 98, 34, 3, 99, 59, 100, 1, 100]⟩,
-            ⟨22, [1, 97, 1, 116, 0], 9, 1, 13, [0, 1, 100]⟩] := by
+            .record ⟨14, [1, 97, 1, 116, 0], 7, 1, 33, [0, 1, 0, 2, 0, 3, 1, 116, 0]⟩,
+            .record ⟨16, [1, 97, 1, 116, 0], 9, 1, 14, [1, 97, 1, 116, 0, 3, 109, 92, 10, 1, 120, 0]⟩,
+            .record ⟨18, [1, 97, 1, 116, 0], 9, 1, 1, [192, 0, 2, 1]⟩,
+            .record ⟨19, [1, 97, 1, 116, 0], 9, 1, 16, [4, 97, 10, 98, 34, 3, 99, 59, 100, 1, 100]⟩,
+            .record ⟨22, [1, 97, 1, 116, 0], 9, 1, 13, [0, 1, 100]⟩,
+            .incl 23 [120, 32, 121] (some [1, 97, 1, 116, 0]),
+            .incl 24 [122] (some [1, 116, 0])] := by
   refine ⟨?_, by decide +kernel⟩
   have wfA : WFName nA := by unfold nA WFName; exact ⟨by decide, by simp [LabelsOK, labelOctets], by decide⟩
   have wfMail : WFName nMail := by
@@ -249,7 +254,7 @@ theorem exFile_ok :
     intro n h; cases h
   intro e he
   simp only [exFile, List.mem_cons, List.mem_nil_iff, or_false] at he
-  rcases he with rfl | rfl | rfl | rfl | rfl | rfl | rfl | rfl | rfl | rfl | rfl | rfl | rfl | rfl
+  rcases he with rfl | rfl | rfl | rfl | rfl | rfl | rfl | rfl | rfl | rfl | rfl | rfl | rfl | rfl | rfl | rfl
   · exact ⟨⟨by simp, by decide, by simp [LabelsOK, labelOctets], by decide⟩, by simp, by decide, by decide, .inl rfl⟩
   · refine ⟨?_, by decide, ?_,
       ⟨by simp [WFType], by decide, by decide, by decide⟩, by simp [WFRdata], gaps_ok_of_B _ (by decide)⟩
@@ -289,6 +294,10 @@ theorem exFile_ok :
   · exact ⟨noOwner, by decide, (by intro c hc; cases hc),
       ⟨mHinfo, by decide, by decide, by decide⟩,
       ⟨⟨by decide, by decide, by decide⟩, ⟨by decide, by decide, by decide⟩, by decide⟩, gaps_ok_of_B _ (by decide)⟩
+  · refine ⟨⟨by decide, by decide, by decide⟩, ?_, by simp, by decide, by decide, .inl rfl⟩
+    intro n hn; cases hn; exact ⟨wfA, by simp, by decide⟩
+  · exact ⟨⟨by decide, by decide, by decide⟩, (by intro n hn; cases hn), by simp, by decide, by decide,
+      .inr ⟨[], rfl, by simp⟩⟩
 
 /-- … so the theorem applies to it -/
 example : parseAll (renderFile exFile) {} =
@@ -303,13 +312,15 @@ example : parseAll (renderFile exFile) {} =
      .item (.record 16 ⟨[1, 97, 1, 116, 0], 9, 1, 14, [1, 97, 1, 116, 0, 3, 109, 92, 10, 1, 120, 0]⟩),
      .item (.record 18 ⟨[1, 97, 1, 116, 0], 9, 1, 1, [192, 0, 2, 1]⟩),
      .item (.record 19 ⟨[1, 97, 1, 116, 0], 9, 1, 16, [4, 97, 10, 98, 34, 3, 99, 59, 100, 1, 100]⟩),
-     .item (.record 22 ⟨[1, 97, 1, 116, 0], 9, 1, 13, [0, 1, 100]⟩)] := by
+     .item (.record 22 ⟨[1, 97, 1, 116, 0], 9, 1, 13, [0, 1, 100]⟩),
+     .item (.incl 23 [120, 32, 121] (some [1, 97, 1, 116, 0])),
+     .item (.incl 24 [122] (some [1, 116, 0]))] := by
   rw [C23_records_partial exFile exFile_ok.1 {} CtxWF_default _ exFile_ok.2]
   rfl
 
 /-- the same file, evaluated directly: the text is what it is meant to be and the parser yields
-    eleven records -/
-example : (parseAll (renderFile exFile) {}).length = 11 := by decide +kernel
+    eleven records and two include requests -/
+example : (parseAll (renderFile exFile) {}).length = 13 := by decide +kernel
 
 /-- RDATA alone: ` ( 10 ;x<CRLF> a )` after the type field of an MX record, origin `t.` -/
 example : parseRdata { origin := some [1, 116, 0] } 1 15
